@@ -321,10 +321,9 @@ func (c *cubicSender) SetMaxDatagramSize(s protocol.ByteCount) {
 	if s < c.maxDatagramSize {
 		panic(fmt.Sprintf("congestion BUG: decreased max datagram size from %d to %d", c.maxDatagramSize, s))
 	}
-	cwndIsMinCwnd := c.congestionWindow == c.minCongestionWindow()
 	c.maxDatagramSize = s
-	if cwndIsMinCwnd {
-		c.congestionWindow = c.minCongestionWindow()
-	}
+	// The minimum window is two datagrams of the new size: lift a window that was at the old
+	// minimum, or anywhere between the old and the new minimum.
+	c.congestionWindow = max(c.congestionWindow, c.minCongestionWindow())
 	c.pacer.SetMaxDatagramSize(s)
 }
